@@ -360,6 +360,33 @@ func init() {
 			if err != nil || msg != "" {
 				return msg, err
 			}
+			// the YAML channel must not depend on how the file is reached: a path with a '+' in it (the list separator
+			// applies to list parameters only) and a symbolic link to the file
+			{
+				sub := filepath.Join(dir, "c++", "tf")
+				if err := os.MkdirAll(sub, 0o755); err != nil {
+					return "", pipeline.Infra("mkdir: %v", err)
+				}
+				if err := os.WriteFile(filepath.Join(sub, "gen.yaml"), []byte(v.Cfg.YAML(nil, nil)), 0o644); err != nil {
+					return "", pipeline.Infra("write yaml: %v", err)
+				}
+				_ = os.Remove(filepath.Join(dir, "link.yaml"))
+				if err := os.Symlink(filepath.Join("c++", "tf", "gen.yaml"), filepath.Join(dir, "link.yaml")); err != nil {
+					return "", pipeline.Infra("symlink: %v", err)
+				}
+				for _, cp := range []string{"c++/tf/gen.yaml", "link.yaml"} {
+					res, err := tools.RunPlugin(desc.MarshalRequest(desc.Request(fd, "config="+cp, nil, nil)), dir)
+					if err != nil {
+						return "", err
+					}
+					if msg := okResult(res); msg != "" {
+						return fmt.Sprintf("all options in YAML, configuration file reached as %q: %s", cp, msg), nil
+					}
+					if res.Content() != allYAML {
+						return fmt.Sprintf("the same configuration file reached as %q changes the output: %s", cp, firstDiff(allYAML, res.Content())), nil
+					}
+				}
+			}
 			opts := setOptions(v.Cfg)
 			// the drawn split, the all-CLI split and every single-option split
 			splits := [][]string{c.OnCLI, opts}
@@ -767,7 +794,7 @@ func init() {
 					c.Card = ir.Repeated // casttype on map values is outside D
 				}
 			}
-			c.KeyForm = rapid.SampledFrom([]string{"type", "full"}).Draw(t, "keyform")
+			c.KeyForm = rapid.SampledFrom([]string{"type", "full", "embed"}).Draw(t, "keyform")
 			c.InjectSame = rapid.IntRange(0, 3).Draw(t, "injectsame") == 0
 			c.FlagAlso = rapid.SampledFrom([]string{"", "", "", "required_fields", "computed_fields", "sensitive_fields"}).Draw(t, "flagalso")
 			setExtra(rp, "c18", c)
@@ -920,7 +947,34 @@ func init() {
 					key = c.Host + ".ZzBad"
 				}
 			}
-			ex.ExcludeFields = append(ex.ExcludeFields, key)
+			exKeys := []string{key}
+			if c.KeyForm == "embed" {
+				// every occurrence addressed in its most specific documented form: through the embedding message where
+				// the host is flattened into one (<EmbeddingMessage>.<Field>), by full path elsewhere
+				var ks []string
+				okAll := true
+				for _, oc := range model.Occurrences(bad, v.Cfg.Types) {
+					if oc.TypeKey != c.Host+".ZzBad" {
+						continue
+					}
+					switch {
+					case oc.EmbedKey != "":
+						ks = append(ks, oc.EmbedKey)
+					case oc.FullKey != "":
+						ks = append(ks, oc.FullKey)
+					default:
+						okAll = false
+					}
+				}
+				if okAll && len(ks) > 0 {
+					exKeys = ks
+				}
+			}
+			for _, k := range exKeys {
+				if !ir.Has(ex.ExcludeFields, k) {
+					ex.ExcludeFields = append(ex.ExcludeFields, k)
+				}
+			}
 			switch c.FlagAlso {
 			case "required_fields":
 				ex.RequiredFields = append(ex.RequiredFields, key)
